@@ -114,3 +114,62 @@ func VH_W22_writeChunk() {
 	}
 	var _ io.Writer = sink
 }
+
+// ---- OP5 (C01, C06, C08): encoder.Write terminates --------------------------
+//
+// encoder.Write loops: dict.Write; on ErrNoSpace compress(0); again. It
+// terminates only if compress(0) always frees look-ahead space when the
+// dictionary refused data. One pass of that loop from an arbitrary invariant
+// state, for configurations at the boundaries of what Verify accepts (DictCap
+// 4096/4097/65536, BufSize 273/274/4096): after compress(0) the dictionary accepts at least
+// one more byte. The matcher is a model returning operations of arbitrary
+// legal length; coding the operation (writeOp) is cut away.
+
+type vAnyMatcher struct{ d *encoderDict }
+
+func (m *vAnyMatcher) Write(p []byte) (int, error) { return len(p), nil }
+func (m *vAnyMatcher) SetDict(d *encoderDict)       { m.d = d }
+func (m *vAnyMatcher) NextOp(rep [4]uint32) operation {
+	n := int(vNondetU16("oplen"))
+	vAssume(n >= 1 && n <= maxMatchLen && n <= m.d.Buffered())
+	if n == 1 && vNondetBool("lit") {
+		return lit{}
+	}
+	return match{distance: 1, n: n}
+}
+
+func vDiscardModel(d *encoderDict, n int) {
+	vAssert(n >= 1 && n <= d.buf.Buffered(), "an operation never covers more than the look-ahead holds")
+	d.buf.rear = d.buf.addIndex(d.buf.rear, n)
+	d.head += int64(n)
+}
+
+func VH_OP5_progress() {
+	vSubst("(*encoder).writeOp", func(e *encoder, op operation) error { return nil })
+	vSubst("(*encoderDict).Discard", vDiscardModel)
+	vUnwind(8)
+	// configurations at the boundaries of what Verify accepts (symbolic sizes make the
+	// modular ring arithmetic too hard for the solvers: 60 s per query)
+	ci := vConcretize(int(vNondetU8("config")) % 9)
+	vAssume(ci%vShards() == vShardIdx())
+	dictCap := []int{MinDictCap, MinDictCap + 1, 1 << 16}[ci%3]
+	bufSize := []int{maxMatchLen, maxMatchLen + 1, 4096}[ci/3]
+	ringLen := dictCap + bufSize + 1
+	m := &vAnyMatcher{}
+	d := &encoderDict{capacity: dictCap, m: m}
+	m.d = d
+	d.buf.data = vOpaqueLen(make([]byte, 2), ringLen)
+	d.buf.front, d.buf.rear = vNondetInt("front"), vNondetInt("rear")
+	vAssume(d.buf.front >= 0 && d.buf.front < ringLen && d.buf.rear >= 0 && d.buf.rear < ringLen)
+	d.head = vNondetI64("head")
+	vAssume(d.head >= 0 && d.head < 1<<50)
+	vAssume(int64(d.buf.Buffered())+vMin64(d.head, int64(dictCap)) <= int64(d.buf.Cap()))
+	// the situation in which encoder.Write calls compress(0): the dictionary is full
+	vAssume(d.Available() == 0)
+	// bound: at most three operations are needed to get below the reserve
+	vAssume(d.Buffered() <= maxMatchLen-1+3)
+	e := &encoder{dict: d, state: &state{}, margin: opLenMargin}
+	vAssert(e.compress(0) == nil, "compress(0) succeeds")
+	vAssert(d.Available() >= 1, "after compress(0) the dictionary accepts at least one more byte (encoder.Write makes progress)")
+	vAssert(int64(d.buf.Buffered())+vMin64(d.head, int64(dictCap)) <= int64(d.buf.Cap()), "dictionary invariant preserved")
+}
